@@ -44,42 +44,58 @@ def strategy(tier):
 
 def run_idle_period(case):
     """engine T, idle gthread loop: how long can an idle, healthy worker go between two heartbeats, compared with `timeout`?
-    (the virtual clock advances by exactly what the loop asks its selector to wait for)"""
+    (the virtual clock advances by exactly what the loop asks its selector to wait for). `parked` idle keep-alive connections
+    (each reached through the real accept / handle / finish_request path) sit in the worker while it idles."""
     from vlib import tsim
     T = case["timeout"]
-    sim = tsim.Sim(2, 10, 2, [])
+    parked = case.get("parked", 0)
+    keepalive = case.get("keepalive", 2)
+    prefix = []
+    for i in range(parked):
+        prefix += [["connect"], ["time", 0], ["send_ka", i], ["time", 0], ["handler", 0], ["time", 0]]
+    sim = tsim.Sim(2, 10, keepalive, prefix)
     beats = []
     w = sim.build()
     w.timeout = T / 2.0
     w.notify = lambda: (beats.append(sim.clock), sim.on_iteration())
     orig_select = w.poller.select
+    idle_from = []
 
     def select(timeout=None):
-        sim.clock += timeout or 0          # nothing is ever ready: the call blocks for its full timeout
-        if len(beats) >= 6:
+        if sim.ei < len(sim.events):
+            return orig_select(timeout)          # the scripted prefix: connections arrive, are served and go idle
+        if not idle_from:
+            idle_from.append(len(beats))
+        # nothing is ever ready from here on: the call blocks for its full timeout (None = for ever)
+        sim.clock += 86400.0 if timeout is None else timeout
+        if len(beats) - idle_from[0] >= 6 + 2 * parked:
             w.alive = False
         return []
     w.poller.select = select
     saved = (tsim.G.time, tsim.G.futures)
     tsim.G.time, tsim.G.futures = tsim.SimTime(sim), tsim.SimFutures(sim)
-    sim.events = [["time", 0]] * 100
     try:
         w.run()
     finally:
         tsim.G.time, tsim.G.futures = saved
-    gaps = [b - a for a, b in zip(beats, beats[1:])]
+    idle_beats = beats[max(idle_from[0] - 1, 0):] if idle_from else beats
+    gaps = [b - a for a, b in zip(idle_beats, idle_beats[1:])]
     period = max(gaps) if gaps else 0
     vio = []
+    classes = ["engine:Tidle", "timeout:%d" % T, "parked:%d" % parked, "keepalive:%s" % keepalive]
+    if parked and len([c for c in sim.conns if c.request_count]) < parked:
+        return Outcome([], False, classes + ["inconclusive:prefix-did-not-park"], sample={"case": case})
     if period >= T:
-        vio.append(Violation("healthy-never-killed", "C11/idle-heartbeat-period-not-below-timeout:gthread",
-                             observed={"heartbeat_period": period, "timeout": T, "worker_wait_bound": T / 2.0},
+        sig = "C11/idle-heartbeat-period-not-below-timeout:gthread" + (":with-idle-keepalive-connections" if parked and period > T / 2.0 + 1e-9 and period > 1.0 + 1e-9 else "")
+        vio.append(Violation("healthy-never-killed", sig,
+                             observed={"heartbeat_period": period, "timeout": T, "worker_wait_bound": T / 2.0, "parked": parked, "keepalive": keepalive},
                              expected="an idle worker refreshes its heartbeat more often than every `timeout` seconds"))
-    return Outcome(vio, True, ["engine:Tidle", "timeout:%d" % T], sample={"case": case, "period": period})
+    return Outcome(vio, True, classes, key="Tidle|%s|%s|%s" % (T, parked, keepalive), sample={"case": case, "period": period, "beats": len(beats)})
 
 
 def extra_cases(tier, seed, shard, nshards):
     from checks import c11_real
-    cs = c11_real.cells(tier) + [{"engine": "Tidle", "timeout": t} for t in (1, 2, 3, 30)]
+    cs = c11_real.cells(tier) + [{"engine": "Tidle", "timeout": t, "parked": n, "keepalive": ka} for t in (1, 2, 3, 30) for n, ka in ((0, 2), (1, 2), (2, 6), (1, 75))]
     for i, c in enumerate(cs):
         if (i + seed) % nshards == shard:
             yield c
